@@ -79,9 +79,12 @@ fn copy_random<W: TW>(cx: &mut Ctx, u: &mut Unstructured) -> R {
     let spare_d = [0usize, 0, 5, 40][u.int_in_range(0usize..=3).unwrap_or(0)];
     let from = u.int_in_range(0..=sl).unwrap_or(0);
     let to = u.int_in_range(0..=dl).unwrap_or(0);
-    let len = match u.int_in_range(0u8..=3).unwrap_or(2) {
+    let len = match u.int_in_range(0u8..=6).unwrap_or(2) {
         0 => usize::MAX / 128,
         1 => sl.max(dl) + 1,
+        // "everything from `from` on": sums with `to` or `from` overflow
+        2 => usize::MAX,
+        3 => usize::MAX - to.min(from),
         _ => u.int_in_range(0..=sl.max(dl)).unwrap_or(3),
     };
     cx.hash(&("copy", W::NAME, width, sl, dl, spare_s, spare_d, from, to, len));
@@ -449,9 +452,13 @@ where
     for _ in 0..3 {
         let from = index(u, n + 1);
         let to = index(u, m + 1);
-        let len = match u.int_in_range(0u8..=3).unwrap_or(0) {
+        let len = match u.int_in_range(0u8..=6).unwrap_or(0) {
             0 => usize::MAX / 128,
             1 => n.max(m),
+            // "everything from `from` on": sums with `to` or `from` overflow
+            2 => usize::MAX,
+            3 => usize::MAX - to.min(from),
+            4 => (usize::MAX - to).saturating_add(1),
             _ => index(u, n.max(m) + 2),
         };
         let mut dst = dst0.clone();
@@ -536,7 +543,7 @@ impl Property for C10 {
         ]
     }
     fn rule(&self) -> &'static str {
-        "cases decoded from bytes, vectors filled with non-periodic contents (field i = hash(i) masked): (a) copy(from,dst,to,len) for the six word types, generated widths, lengths, spare words, from<=src.len, to<=dst.len, len up to usize::MAX/128, against the element loop on a clone, all of dst compared, src unchanged; plus the complete enumeration for u8 (widths 1..8) and u16 (widths 1..16) with src.len=dst.len=24 over every (from,to,len) in [0,24]^3; (b) apply_in_place with a recording closure on fresh vectors and vectors with spare words (after resize/clear+push/new_unaligned): exactly len calls, in index order, on the current values, results stored, over-wide result must panic; (c) reset/par_reset/reset_atomic/par_reset_atomic and BitVec fill/par_fill/flip/par_flip/reset/par_reset/count_ones/par_count_ones and the atomic twins against per-element loops; (d) try_chunks_mut(c>=1): Ok exactly when len<=c or c*width is a multiple of W::BITS, chunk count/lengths/reads, writes land on exactly the corresponding elements; (e) get_unaligned(i)==get(i) on new_unaligned vectors for widths <= BITS-6, BITS-4, BITS. (f) the parallel variants (par_count_ones, par_flip, par_fill, par_reset, atomic twins, BitFieldVec par_reset/par_reset_atomic) on 12.8-64 Mbit vectors, i.e. above the 2 x 100000-word threshold below which rayon does not split them, in rayon pools of 1, 2, 3 and the default number of threads; and all-ones vectors of 2^33..2^34+2^32 bits counted in pools of 1-2 threads (a single leaf above 2^32 ones). (g) the blanket implementations for plain Vec<W>/Box<[W]> (full-width bit-field slices): get/set/copy/apply_in_place/try_chunks_mut/reset/par_reset against the slice itself. Non-trivial: the operation touches at least 2 words; distinct = distinct hash of the decoded case."
+        "cases decoded from bytes, vectors filled with non-periodic contents (field i = hash(i) masked): (a) copy(from,dst,to,len) for the six word types, generated widths, lengths, spare words, from<=src.len, to<=dst.len, len up to usize::MAX (incl. usize::MAX - to + 1), against the element loop on a clone, all of dst compared, src unchanged; plus the complete enumeration for u8 (widths 1..8) and u16 (widths 1..16) with src.len=dst.len=24 over every (from,to,len) in [0,24]^3; (b) apply_in_place with a recording closure on fresh vectors and vectors with spare words (after resize/clear+push/new_unaligned): exactly len calls, in index order, on the current values, results stored, over-wide result must panic; (c) reset/par_reset/reset_atomic/par_reset_atomic and BitVec fill/par_fill/flip/par_flip/reset/par_reset/count_ones/par_count_ones and the atomic twins against per-element loops; (d) try_chunks_mut(c>=1): Ok exactly when len<=c or c*width is a multiple of W::BITS, chunk count/lengths/reads, writes land on exactly the corresponding elements; (e) get_unaligned(i)==get(i) on new_unaligned vectors for widths <= BITS-6, BITS-4, BITS. (f) the parallel variants (par_count_ones, par_flip, par_fill, par_reset, atomic twins, BitFieldVec par_reset/par_reset_atomic) on 12.8-64 Mbit vectors, i.e. above the 2 x 100000-word threshold below which rayon does not split them, in rayon pools of 1, 2, 3 and the default number of threads; and all-ones vectors of 2^33..2^34+2^32 bits counted in pools of 1-2 threads (a single leaf above 2^32 ones). (g) the blanket implementations for plain Vec<W>/Box<[W]> (full-width bit-field slices): get/set/copy/apply_in_place/try_chunks_mut/reset/par_reset against the slice itself. Non-trivial: the operation touches at least 2 words; distinct = distinct hash of the decoded case."
     }
     fn run(&self, data: &[u8], cx: &mut Ctx) -> R {
         let (mode, rest) = data.split_first().unwrap_or((&0, &[]));
